@@ -602,7 +602,9 @@ def sqlite_arithmetic_tables(program, res, rule="C05-S2"):
                 continue
             n += 1
             bad = None
+            wide = False
             for (a, b) in ARITHMETIC_WITNESSES + SQLITE_WIDE_WITNESSES:
+                wide = (a, b) in SQLITE_WIDE_WITNESSES
                 try:
                     got = sql3vl.ev(tree, {"X": a, "Y": b})
                 except sql3vl.Opaque as e:
@@ -618,7 +620,9 @@ def sqlite_arithmetic_tables(program, res, rule="C05-S2"):
                 res.abstain(rule, f"SQLite `{op}` template", bad[1])
             else:
                 a, b, got, want = bad
-                res.fail(rule, f"SQLite:{getattr(fn, 'name', op)}", f"value-table:{op}",
+                # the small witnesses (signs, exact multiples, reals) and the 64 bit ones are different findings: a template right on the first and
+                # wrong on the second is wrong for divisors beyond 2**62 only
+                res.fail(rule, f"SQLite:{getattr(fn, 'name', op)}", f"value-table-64bit:{op}" if wide else f"value-table:{op}",
                          f"SQLiteModel emits `{op}` as `{text[:90]}…`; evaluated with SQLite's arithmetic at x = {a}, y = {b} it gives {got}, the documented (numpy) value is {want}",
                          "data_algebra/SQLite.py", getattr(fn, "lineno", 0))
     res.expect_count(rule, "SQLite arithmetic templates evaluated", n, 3)
@@ -627,7 +631,7 @@ def sqlite_arithmetic_tables(program, res, rule="C05-S2"):
 def sql_modulo_tables(program, res, rule="C05-S2", dialects=None):
     """The same value tables for the dialects that share the generic formatters: `%` / mod / remainder of PostgreSQL, MySQL, BigQuery, Spark and
     Polars-SQL.  MOD(a, b) there is the truncating remainder (sign of the dividend, each dialect's documentation; Spark was run: MOD(-7, 2) = -1),
-    numpy.mod / Python's % — the catalogued meaning — takes the sign of the divisor."""
+    numpy.mod / Python's % — the catalogued meaning — takes the sign of the divisor.  Polars' own SQL is the exception (run: its MOD is floored already)."""
     n = 0
     seen = set()
     for mod_, cls_ in sqlexpr.DIALECTS:
@@ -652,7 +656,7 @@ def sql_modulo_tables(program, res, rule="C05-S2", dialects=None):
                 bad = None
                 for (a, b) in ARITHMETIC_WITNESSES:
                     try:
-                        got = sql3vl.ev(tree, {"X": a, "Y": b})
+                        got = sql3vl.ev(tree, {"X": a, "Y": b, "__MOD_FLOORED__": cls_ == "PolarsSQLModel"})
                     except sql3vl.Opaque as e:
                         bad = ("opaque", str(e))
                         break
@@ -857,7 +861,7 @@ def _s7_coalesce_missing_only(program, res):
 
 def _numeric_test(t) -> bool:
     txt = unparse(t)
-    return "is_numeric_dtype" in txt or ".kind" in txt or "is_integer_dtype" in txt or "is_float_dtype" in txt or "numbers.Number" in txt
+    return "is_numeric_dtype" in txt or ".kind" in txt or "'kind'" in txt or '"kind"' in txt or "is_integer_dtype" in txt or "is_float_dtype" in txt or "numbers.Number" in txt
 
 
 def _after_numeric_branch(fn_, call, _numeric_test=_numeric_test) -> bool:
@@ -1002,6 +1006,26 @@ def masked_condition_rule(program, res, rule="C05-S8"):
                         res.ok(rule, f"{f.node.name}: the result of numpy.where (or its branches) goes through a step that can replace <NA>")
     if n < 2:
         raise AnalysisError("pandas_base: numpy.where in _where_expr and _if_else_expr not found")
+    # the helpers the branches go through: turning a branch into an object array is right for truth values and text only — a nullable *number* column
+    # (Int64 with one missing entry) made object breaks every arithmetic and comparison on the result, where numpy reads its missing entries as nan
+    for hname in sorted({dotted_name(a_.func) for f in program.all_functions() if f.module is mod and f.node.name in ("_where_expr", "_if_else_expr")
+                         for c in ast.walk(f.node) if isinstance(c, ast.Call) and dotted_name(c.func) == "numpy.where" and len(c.args) == 3
+                         for a_ in c.args[1:] if isinstance(a_, ast.Call) and isinstance(a_.func, ast.Name)}):
+        h = mod.functions.get(hname)
+        if h is None:
+            continue
+        res.analysed(h)
+        for c in ast.walk(h.node):
+            if isinstance(c, ast.Call) and isinstance(c.func, ast.Attribute) and c.func.attr in ("to_numpy", "astype") \
+                    and any(unparse(v_) in ("object", "'object'") for v_ in list(c.args) + [k.value for k in c.keywords if k.arg == "dtype"]) \
+                    and isinstance(c.func.value, ast.Name) and c.func.value.id in h.params():
+                if _after_numeric_branch(h.node, c):
+                    res.ok(rule, f"{hname}: `{unparse(c)[:50]}` is reached only by branches that are not numbers or dates")
+                else:
+                    res.fail_at(rule, h, f"numeric-branch-made-object:{hname}",
+                                f"{hname} turns every nullable branch into an object array (`{unparse(c)[:50]}`): b.where(I, 0) + 1 with an Int64 column I holding one missing "
+                                f"entry raises 'unsupported operand type(s) for +: NoneType and int', cumsum refuses object columns — numpy reads a nullable number column as float "
+                                f"with nan by itself", c)
     # is_in: numpy.isin compares entry by entry, which a nullable column refuses for its missing entries
     pim = program.method("pandas_base", "PandasModelBase", "_populate_impl_map", inherited=False)
     entry = None
@@ -1024,6 +1048,19 @@ def masked_condition_rule(program, res, rule="C05-S8"):
                     res.fail_at(rule, h, f"is-in-masked-column:{h.node.name}",
                                 f"`{unparse(c)[:50]}` is handed the column as it is: for a nullable (masked) column with a missing entry — the result of an and / or — "
                                 f"numpy.isin raises 'boolean value of NA is ambiguous'; a missing entry is in no set", c)
+        # numpy.isin finds a None of the list in an object column's missing cells too: the answer has to be masked by the column's own missing entries
+        for c in ast.walk(h.node):
+            if isinstance(c, ast.Call) and dotted_name(c.func) == "numpy.isin" and c.args and isinstance(c.args[0], ast.Name) and ps and c.args[0].id == ps[0]:
+                holders = {t.id for a_ in ast.walk(h.node) if isinstance(a_, ast.Assign) and any(x is c for x in ast.walk(a_.value)) for t in a_.targets if isinstance(t, ast.Name)}
+                masked = [b_ for b_ in ast.walk(h.node) if isinstance(b_, ast.BinOp) and isinstance(b_.op, ast.BitAnd)
+                          and (any(x is c for x in ast.walk(b_)) or any(isinstance(x, ast.Name) and x.id in holders for x in ast.walk(b_)))
+                          and any(isinstance(x, ast.Call) and isinstance(x.func, ast.Attribute) and x.func.attr in ("notna", "notnull", "isna", "isnull") for x in ast.walk(b_))]
+                if masked:
+                    res.ok(rule, f"{h.node.name}: the answer of numpy.isin is masked by the column's own missing entries")
+                else:
+                    res.fail_at(rule, h, f"is-in-missing-is-member-numpy:{h.node.name}",
+                                f"`{unparse(c)[:40]}` is the answer as it is: for an object column s_obj.is_in(['a', None]) is True at the missing row (numpy compares None to None), "
+                                f"SQLite gives NULL and select_rows keeps a row Pandas should drop", c)
         # Series.isin counts a missing entry as a member of a list that holds None / nan (pandas matches missing to missing); numpy.isin and SQL do not
         for c in ast.walk(h.node):
             if isinstance(c, ast.Call) and isinstance(c.func, ast.Attribute) and c.func.attr == "isin" and isinstance(c.func.value, ast.Name) and ps and c.func.value.id == ps[0]:
